@@ -36,6 +36,8 @@ import tempfile
 
 import core
 from core import fseq, fseqs, pseq, pseqs
+import used
+import past
 
 PROP = "C20"
 SHRINK_SEP = "+"
@@ -44,7 +46,10 @@ RULE = ("bisc: exhaustive = every history of <=6 (quick: <=5) calls over 2 names
         "over 5 names, random datasets (multi-digit keys/entries, non-permutations), write_bisc_files with 5 predicates; "
         "raw: crafted and randomly mutated file contents; db: every history of <=4 calls over an alphabet of 11 calls on "
         "the permutations 01,10, random histories on lengths <=4 (thorough <=5), every file of <repo>/dfa_db; shipped: "
-        "every shipped file x every length. non-trivial = (bisc) some read follows a write to the same name or reads a "
+        "every shipped file x every length; large: data sets with entries of length 9-12, 21-40, 64-70, ~200, ~401, ~1000, "
+        "long and short data sets alternating under one name, long files damaged at either end, write_bisc_files up to "
+        "length 6, look-alike database keys of length >= 11; a third of the Perm objects have a past, half of the bisc "
+        "lines pass ONE dictionary object to every write (refilled in place, emptied after the call). non-trivial = (bisc) some read follows a write to the same name or reads a "
         "pre-populated file, (db) some load/basis call, (raw) always, (shipped) always; distinct = distinct op lines")
 ASSUMPTIONS = [
     "model/implementation agreement outside the enumerated and sampled histories is assumed",
@@ -214,8 +219,19 @@ def _impl_read(d, name):
     return c1 if c1 == c2 else "UNSTABLE:%s|%s" % (c1, c2)
 
 
+def _mkp(seq, salt=0):
+    """dataset entries / database keys: for a deterministic third of the sequences that are permutations (length
+    <= 410) a Perm object with a past (used, or derived from a used object through another API route)"""
+    seq = tuple(seq)
+    if len(seq) <= 410 and used.is_perm(seq) and used.digest("P20", [fseq(seq)]) % 3 == 0:
+        return past.mkperm(seq, salt)
+    return _Perm(seq)
+
+
 def _impl_bisc(init, ops):
     d = _workdir()
+    shared = {}          # ONE dictionary object per line: every write passes it, refilled in place (argument aliasing)
+    alias = used.digest("bisc", [init, ops]) % 2 == 0
     try:
         if init != "-":
             for e in init.split("+"):
@@ -227,9 +243,15 @@ def _impl_bisc(init, ops):
             for o in ops.split("+"):
                 t = o.split(":")
                 if t[0] == "w":
-                    data = {k: [_Perm(s) for s in v] for k, v in pdataset(t[2])}
+                    data = {k: [_mkp(s, k) for s in v] for k, v in pdataset(t[2])}
+                    if alias:
+                        shared.clear()
+                        shared.update(data)
+                        data = shared
                     fn = os.path.join(d, t[1] + ".json")
                     _, out, err = _capture(lambda: _B.write_json_to_file(data, fn))
+                    if alias:
+                        used.spoil(data)        # the caller empties its dictionary (and the lists in it) after the call
                     if err:
                         outs.append(err)
                     elif out == "Could not write to file: %s\n" % fn:
@@ -240,7 +262,7 @@ def _impl_bisc(init, ops):
                         outs.append("ok")
                 elif t[0] == "W":
                     n = int(t[2])
-                    patts = [_Perm(p) for p in pseqs(t[3])]
+                    patts = [_mkp(p) for p in pseqs(t[3])]
                     info = os.path.join(d, t[1])
                     _, out, err = _capture(lambda: _B.write_bisc_files(n, lambda p: p.avoids(*patts), info))
                     if err:
@@ -419,13 +441,13 @@ def _impl_db_inner(init, ops):
             for o in ops.split("+"):
                 t = o.split(":")
                 if t[0] == "s":
-                    p = _Perm(pseq(t[1]))
+                    p = _mkp(pseq(t[1]), 1)
                     x = None if t[2] == "-" else _fresh(pseq(t[2]))[0]
                     _, _, err = _capture(lambda: _PW.store_dfa_for_perm(p, x))
                     if err:
                         outs.append(err)
                 elif t[0] == "l":
-                    p = _Perm(pseq(t[1]))
+                    p = _mkp(pseq(t[1]), 2)
                     try:
                         dfa = _PW.load_dfa_for_perm(p)
                         dfa = _load_again(p, dfa)
@@ -455,9 +477,11 @@ def _impl_db_inner(init, ops):
                 elif t[0] == "j":
                     junk(pseq(t[1]))
                 elif t[0] == "b":
-                    basis = [_Perm(q) for q in pseqs(t[1])]
+                    basis = [_mkp(q, 3) for q in pseqs(t[1])]
                     try:
-                        dfa = _PW.make_dfa_for_basis_from_db(basis)
+                        # (argument aliasing: the list object is first passed empty - no file is touched - and then
+                        #  filled in place)
+                        dfa = used.grown_list(_PW.make_dfa_for_basis_from_db, basis, first=[])
                         dfa2 = _PW.make_dfa_for_basis_from_db(basis)       # the same request once more
                         if not (dfa2 == dfa and _fingerprint(dfa2) == _fingerprint(dfa)):
                             outs.append("UNSTABLE:basis-automaton-changed")
@@ -1082,6 +1106,79 @@ def _run(ctx):
             ops.insert(rng.randrange(len(ops) + 1), "w:nodir/a:.")
         lines.append("bisc %s %s" % (init, "+".join(ops)))
     ctx.compare("bisc-random", lines)
+    # ------------------------------------------------------------------ sizes the streams above never reach
+    # data sets with LONG entries (lengths 9-12, 21-40, 64-70, ~200, ~401, ~1000; keys with several digits), a long data
+    # set overwritten by a short one and the other way round under one name, files whose content is a long data set
+    # damaged at the very beginning / the very end, write_bisc_files up to length 6
+    def long_dataset(lo, hi):
+        items = []
+        for k in rng.sample([0, 7, 9, 10, 11, 12, 21, 33, 64, 100, 401, 1000], rng.randrange(1, 4)):
+            perms_ = []
+            for _ in range(rng.randrange(1, 4)):
+                n = rng.randrange(lo, hi + 1) if rng.random() < 0.8 else rng.randrange(0, 6)
+                perms_.append(rand_perm(rng, n))
+            items.append((k, perms_))
+        return "&".join("%d=%s" % (k, fseqs(v)) for k, v in items)
+    lines = []
+    f = 1 if quick else 8
+    for lo, hi, cnt in ((9, 12, 160 * f), (21, 40, 120 * f), (64, 70, 60 * f), (190, 210, 24 * f), (395, 405, 10 * f), (995, 1005, 6 * f)):
+        for _ in range(cnt):
+            r = rng.random()
+            if r < 0.5:
+                ops = []
+                for _ in range(rng.randrange(2, 6)):
+                    q = rng.random()
+                    if q < 0.45:
+                        ops.append("w:%s:%s" % (rng.choice("ab"), long_dataset(lo, hi) if rng.random() < 0.7 else rand_dataset(rng)))
+                    else:
+                        ops.append("r:" + rng.choice("ab"))
+                ops.append("r:" + rng.choice("ab"))
+                init = "-"
+                if rng.random() < 0.25:
+                    init = "a=" + enc_raw(_py_dumps(pdataset(long_dataset(lo, hi))) * rng.choice([1, 1, 2]))
+                lines.append("bisc %s %s" % (init, "+".join(ops)))
+            else:
+                c = _py_dumps(pdataset(long_dataset(lo, hi)))
+                q = rng.random()
+                if q < 0.25:
+                    c = c[:-rng.randrange(1, 4)]                    # damaged at the very end
+                elif q < 0.45:
+                    c = c[rng.randrange(1, 3):]                     # ... at the very beginning
+                elif q < 0.6:
+                    i = rng.choice([1, 2, len(c) - 2, len(c) - 3])
+                    c = c[:i] + rng.choice(MUT_ALPHABET.replace("\n", "")) + c[i + 1:]
+                elif q < 0.7:
+                    c = c + rng.choice(["x", " ", "}", "\n", "\n{}"])
+                lines.append("rawmut " + enc_raw(c) if c else "rawmut")
+    for n in (4, 5, 6) if quick else (4, 5, 5, 6, 6, 6):
+        for patts in rng.sample(["0,1,2", "1,2,0;2,0,1", "1,3,0,2", "0,2,1,3;3,1,2,0", "2,1,0", "0,1,2,3,4", "1,0"], 2):
+            lines.append("bisc - W:x:%d:%s+r:x_good_len%d+r:x_bad_len%d+W:x:%d:%s+r:x_good_len%d" % (n, patts, n, n, n, patts, n))
+    rng.shuffle(lines)
+    ctx.compare("large", lines)
+    # look-alike permutations of length >= 11 (the same decimal concatenation = the same file name, the same first
+    # entries, ...: used.lookalikes) as database keys; automata are supplied (none can be computed for such lengths)
+    lines = []
+    for _ in range(30 if quick else 300):
+        n = rng.choice([11, 12, 13, 14, 21, 33, 40])
+        p = list(range(n))
+        if rng.random() < 0.7:
+            i = rng.randrange(n - 1)
+            p[i], p[i + 1] = p[i + 1], p[i]
+        else:
+            rng.shuffle(p)
+        twins = used.lookalikes(tuple(p), rng)
+        if not twins:
+            continue
+        q = rng.choice(twins[:3])
+        a1, a2 = rng.sample(["0,1", "1,0", "0", "0,1,2"], 2)
+        fp, fq = fseq(p), fseq(q)
+        hist = ["s:%s:%s" % (fp, a1), "s:%s:%s" % (fq, a2), "l:" + fp, "l:" + fq]
+        if rng.random() < 0.5:
+            hist.insert(2, "x")
+        if rng.random() < 0.3:
+            hist = hist[1::-1] + hist[2:]
+        lines.append("db - " + "+".join(hist))
+    ctx.compare("db-lookalike-keys", lines)
     # ------------------------------------------------------------------ random raw contents
     lines = []
     for _ in range(3000 if quick else 40000):
